@@ -276,6 +276,9 @@ func summary(id, tier string, results []*JobResult, r *Runner, wall time.Duratio
 	for k, n := range r.EngineErrors {
 		fmt.Printf("  ENGINE-ERROR x%d: %s\n", n, k)
 	}
+	if r.SolverErrors > 0 {
+		fmt.Printf("  SOLVER-ERRORS %d (error lines from the solver: the affected queries were treated as inconclusive)\n", r.SolverErrors)
+	}
 }
 
 func writeReplay(id string, rp *vioReport) {
